@@ -70,6 +70,9 @@ class UnixSocketSession(Session):
             raise UnixSocketError("Could not connect to %s" % path)
 
         self._socket = sock
+        # a close() before this connect (e.g. after a failed attempt) must not make
+        # the session thread take this connection for one that is being closed
+        self._closing.clear()
         self._connected = True
         # the caller's timeout also bounds the wait for the server's <hello>
         self._post_connect(timeout)
